@@ -10,6 +10,7 @@ import (
 	"os"
 	"path/filepath"
 	"strings"
+	"sync"
 	"time"
 
 	"gose/interp"
@@ -54,6 +55,7 @@ func main() {
 	samples := flag.Int("samples", 6, "path samples kept per harness")
 	known := flag.String("known", "", "comma-separated known-finding ids that are active")
 	debug := flag.Bool("debug", false, "debug output")
+	parallel := flag.Int("parallel", 8, "harnesses explored concurrently")
 	ov := overlayFlag{}
 	flag.Var(ov, "overlay", "virtual=real (repeatable)")
 	flag.Parse()
@@ -102,27 +104,72 @@ func main() {
 		ecfg.Tier = 1
 	}
 	eng := &interp.Engine{Prog: prog, Sizes: &types.StdSizes{WordSize: 8, MaxAlign: 8}, Cfg: ecfg}
-	for _, name := range strings.Split(*entries, ",") {
+	names := strings.Split(*entries, ",")
+	resSlots := make([]*interp.HarnessResult, len(names))
+	sem := make(chan struct{}, *parallel)
+	var wg sync.WaitGroup
+	var mu sync.Mutex
+	for idx, name := range names {
 		if name == "" {
 			continue
+		}
+		parts := strings.Split(name, "@")
+		name = parts[0]
+		hcfg := *ecfg
+		for _, kv := range parts[1:] {
+			var k string
+			var v int
+			if i := strings.Index(kv, "="); i > 0 {
+				k = kv[:i]
+				fmt.Sscanf(kv[i+1:], "%d", &v)
+			}
+			switch k {
+			case "unwind":
+				hcfg.Unwind = v
+			case "cap":
+				hcfg.SolverCapMs = v
+			case "maxpaths":
+				hcfg.MaxPaths = v
+			case "maxsteps":
+				hcfg.MaxSteps = v
+			case "workers":
+				hcfg.Workers = v
+			case "samples":
+				hcfg.Samples = v
+			}
 		}
 		fn := main.Func(name)
 		if fn == nil {
 			rep.Errors = append(rep.Errors, "no such harness: "+name)
 			continue
 		}
-		res := eng.Explore(fn)
-		rep.Results = append(rep.Results, res)
-		fmt.Fprintf(os.Stderr, "== %s: paths=%d queries=%d (sat %d unsat %d unknown %d) violations=%d unsupported=%d wall=%.1fs solver=%.1fs\n",
-			name, res.Paths, res.Queries, res.Sat, res.Unsat, res.Unknown, len(res.Violations), len(res.Unsupported), res.WallS, res.SolverS)
-		for _, v := range res.Violations {
-			fmt.Fprintf(os.Stderr, "   %s [%s] x%d %s model=%v\n", v.Kind, v.Label, v.Count, v.Msg, v.Model)
-		}
-		for u, n := range res.Unsupported {
-			fmt.Fprintf(os.Stderr, "   unsupported x%d: %s\n", n, u)
-		}
-		for u, n := range res.Undischarged {
-			fmt.Fprintf(os.Stderr, "   undischarged x%d: %s\n", n, u)
+		wg.Add(1)
+		go func(idx int, name string, hcfg interp.Config) {
+			defer wg.Done()
+			sem <- struct{}{}
+			defer func() { <-sem }()
+			heng := &interp.Engine{Prog: prog, Sizes: eng.Sizes, Cfg: &hcfg}
+			res := heng.Explore(fn)
+			resSlots[idx] = res
+			mu.Lock()
+			defer mu.Unlock()
+			fmt.Fprintf(os.Stderr, "== %s: paths=%d queries=%d (sat %d unsat %d unknown %d) violations=%d unsupported=%d wall=%.1fs solver=%.1fs\n",
+				name, res.Paths, res.Queries, res.Sat, res.Unsat, res.Unknown, len(res.Violations), len(res.Unsupported), res.WallS, res.SolverS)
+			for _, v := range res.Violations {
+				fmt.Fprintf(os.Stderr, "   %s [%s] x%d %s model=%v\n", v.Kind, v.Label, v.Count, v.Msg, v.Model)
+			}
+			for u, n := range res.Unsupported {
+				fmt.Fprintf(os.Stderr, "   unsupported x%d: %s\n", n, u)
+			}
+			for u, n := range res.Undischarged {
+				fmt.Fprintf(os.Stderr, "   undischarged x%d: %s\n", n, u)
+			}
+		}(idx, name, hcfg)
+	}
+	wg.Wait()
+	for _, r := range resSlots {
+		if r != nil {
+			rep.Results = append(rep.Results, r)
 		}
 	}
 	b, _ := json.MarshalIndent(rep, "", " ")
